@@ -72,6 +72,12 @@ var rejections = []rejection{
 	{"calendar_dates.txt", "bad-date-twice-in-a-row", map[string]string{"date": "yesterday"}, 2},
 	{"trips.txt", "unknown-route_id-twice-in-a-row", map[string]string{"route_id": "NOSUCH"}, 2},
 	{"agency.txt", "blank-agency_name-twice-in-a-row", map[string]string{"agency_name": ""}, 2},
+	{"trips.txt", "unknown-route_id-with-the-trip_id-of-a-valid-row", map[string]string{"route_id": "NOSUCH", "trip_id": "=T1"}, 1},
+	{"trips.txt", "unknown-service_id-with-the-trip_id-of-a-valid-row", map[string]string{"service_id": "NOSUCH", "trip_id": "=T2"}, 1},
+	{"routes.txt", "unknown-agency_id-with-the-route_id-of-a-valid-row", map[string]string{"agency_id": "NOSUCH", "route_id": "=R1"}, 1},
+	{"routes.txt", "blank-route_type-with-the-route_id-of-a-valid-row", map[string]string{"route_type": "", "route_id": "=R2"}, 1},
+	{"calendar.txt", "bad-start_date-with-the-service_id-of-a-valid-row", map[string]string{"start_date": "soon", "service_id": "=C1"}, 1},
+	{"agency.txt", "blank-agency_url-with-the-agency_id-of-a-valid-row", map[string]string{"agency_url": "", "agency_id": "=A1"}, 1},
 	{"trips.txt", "blank-route_id", map[string]string{"route_id": ""}, 1},
 	{"trips.txt", "blank-service_id", map[string]string{"service_id": ""}, 1},
 	{"trips.txt", "blank-trip_id", map[string]string{"trip_id": ""}, 1},
@@ -119,7 +125,9 @@ func spliceRejected(m *feedModel, rj rejection, pos int, tag string) []string {
 		row[t.col(idc)] = "ZZ" + tag
 	}
 	for col, v := range rj.cells {
-		if v == "S1" || v == "S2" {
+		if strings.HasPrefix(v, "=") {
+			v = v[1:] // the literal id of a valid row of this file
+		} else if v == "S1" || v == "S2" {
 			// parent of the blank-id stop row: a real stop id
 			sid, _ := m.t("stops.txt").get(int(v[1]-'1'), "stop_id")
 			v = sid
@@ -136,6 +144,12 @@ func spliceRejected(m *feedModel, rj rejection, pos int, tag string) []string {
 func c09Harness(nInsert int) Harness {
 	return func(c *Ctx) {
 		base := genStaticFeedN(c, false, baseCounts, nil, nil)
+		// physical lines and data rows need not coincide: blank lines between rows, and a
+		// quoted cell spanning two lines in the first valid agency row
+		pres := presentation{BlankLines: c.Free("blank_lines_between_rows", 2) == 1}
+		if c.Free("multi_line_cell_in_first_agency_row", 2) == 1 {
+			base.t("agency.txt").set(0, "agency_phone", "line one\nline two")
+		}
 		m := base.clone()
 		var ins []insertion
 		var desc []string
@@ -156,8 +170,8 @@ func c09Harness(nInsert int) Harness {
 			}
 			desc = append(desc, fmt.Sprintf("%s:%s@%d", rj.file, rj.name, pos))
 		}
-		bb := renderFeed(base, presentation{})
-		b := renderFeed(m, presentation{})
+		bb := renderFeed(base, pres)
+		b := renderFeed(m, pres)
 		c.Input(hash64(string(b)), true, func() string { return strings.Join(desc, " ") + "\n" + m.text() })
 		c.SetMapMode(mapFree)
 		r, err, ok := parseStaticGuarded(c, b, gtfs.ParseStaticOptions{})
